@@ -7,7 +7,7 @@ BASE = "for m in $(cat /w/out/gomods.txt); do MF=$(cd /repo/$m && . /w/out/goenv
 TRUST = ("go/packages + go/types + go/ssa (x/tools v0.29.0) build a faithful typed SSA of /repo's working tree; VTA call graph over-approximates dynamic dispatch inside the two packages; "
          "facts are 'passed on every path' (must) facts without kills; user callbacks, math/big, constbn and Go crypto are outside the analysis")
 
-CLOSED = "; plus closed tables generated from the reviewed tree and compared on every run (who writes each state field, who calls each state-writing function, which failure reasons each accept path can return, which events each function emits)"
+CLOSED = "; renames of unexported declarations and per-call-site copies of new shared helpers are normalised before analysis (two-pass load); plus closed tables generated from the reviewed tree and compared on every run (who writes each state field, who calls each state-writing function, which failure reasons each accept path can return, which events each function emits)"
 # id -> (technique, level text, design ref, note)
 CLAIMS = {
  "C01": ("inter-procedural must-pass-through (every verification step dominates akeHasFinished on both chains), who-may-write, operand-provenance/polarity of each AKE check by canonical value terms, constant checks of the DH group",
@@ -22,7 +22,7 @@ CLAIMS = {
  "C06": ("failure-atomicity effect analysis: access-path write summaries (bottom-up) × rejecting returns with error-origin and error-source provenance, snapshot/restore recognition; must-pass-through commit-point gates; handler error-return typestate",
          "Structural necessary condition: no function reachable from Receive writes session-visible state on a path that can still end in a rejecting return (other than by the failing step itself), peer key/SSID/highlight commits are behind the signature checks, AKE handlers return the entered state on error. Known genuine deviations (D11, D16 residual, D23) are listed as known findings. Observational equivalence of continuations is not decided.",
          "DESIGN.md §4/C06"),
- "C15": ("decision-table extraction of verifyInstanceTags by path enumeration over all orderings of its operands; who-may-write; must-pass-through for dispatch; wire-layout extraction (writer fields vs reader offsets) for header, fragment prefix and ExtractInstanceTags",
+ "C15": ("decision-table extraction of verifyInstanceTags by path enumeration over all orderings of its operands; who-may-write; must-pass-through for dispatch; wire-layout extraction (writer fields vs reader offsets) for header, fragment prefix and ExtractInstanceTags; path enumeration of receiveDecoded/receiveFragment: the peer tag is restored on every refusal and after every data message (a data message never binds)",
          "Structural necessary conditions of instance-tag isolation: own tag stored only after the >=0x100 loop exit and a successful random draw; the tag check's decision table equals the specified one on all orderings and adopts the sender tag only on accepting paths; foreign-instance traffic returns before any handler; writers and the three readers of the tags agree on offsets and order. Whole-history behaviour is not decided.",
          "DESIGN.md §4/C15"),
  "C16": ("decision-table extraction of version commitment over policy × offer × committed; must-pass-through of checkVersion; per-version emission constants; escape/alias analysis of buffers wiped on exit; value-term check of whitespace-tag removal",
@@ -31,7 +31,7 @@ CLAIMS = {
  "C09": ("who-may-write/who-may-call over the VTA call graph, value terms of the retired id, CFG ordering (retire before increment, retire implies move), must-pass-through of the drain on every generated message, wire-layout extraction of the disclosed-keys field",
          "Structural necessary conditions of MAC-key disclosure: only the retire functions feed the queue with the receiving keys of generation id-1, computed before the id moves and only when it moves; matching records are returned and deleted together; every generated data message drains and serialises the whole queue. The joint two-party timing claim is not decided.",
          "DESIGN.md §4/C09"),
- "C13": ("typestate (non-nil with kills, inter-procedural) for lazily established fields; the Go compiler's prove pass as candidate generator for bounds checks against a reviewed table with dominating-test requirements; allocation-size and integer-narrowing audits over SSA; CFG typestate for UnreadByte and loop-progress in the s-expression reader; error-use discipline for randomness helpers",
+ "C13": ("typestate (non-nil with kills, inter-procedural) for lazily established fields; the Go compiler's prove pass as candidate generator for bounds checks against a reviewed table with dominating-test requirements; allocation-size and integer-narrowing audits over SSA; CFG typestate for UnreadByte and loop-progress in the s-expression reader; error-use discipline for randomness helpers; failure-atomicity with randomness-origin errors: state tags and key ids written before a randomness failure form a closed table",
          "Structural necessary conditions of crash/hang/memory robustness: no nil dispatch on c.smp.state/c.ake, no new undischarged bounds check, allocation sizes bounded by input length, no new lossy narrowing, no reachable panic/unchecked assertion, reader loops consume input, randomness errors are used. Termination and memory use in general are not decided.",
          "DESIGN.md §4/C13"),
  "C18": ("who-may-write with constant values, event-condition provenance (state loaded before the store), three-valued path enumeration of Send's dispatch, CFG ordering and must-facts for the resend queue, natural-loop exit analysis of TLV processing",
